@@ -67,8 +67,23 @@ def main():
             return 2
         mod.run(ctx)
         return common.finish(ctx)
-    except Exception:
+    except Exception as exc:
+        tb = traceback.extract_tb(exc.__traceback__)
+        src = os.path.realpath(os.path.join(common.REPO, "src"))
+        impl_frames = [f for f in tb if os.path.realpath(f.filename).startswith(src)]
         traceback.print_exc()
+        if impl_frames and not isinstance(exc, (MemoryError, KeyboardInterrupt)):
+            # the implementation itself raised where the harness expected it to return (or to raise
+            # one of the documented errors): that is a behaviour change, not an infrastructure problem
+            last = impl_frames[-1]
+            ctx.violation("impl-violation",
+                          f"implementation raised unexpected {type(exc).__name__}: {str(exc)[:200]} "
+                          f"at {os.path.relpath(last.filename, src)}:{last.lineno} ({last.name})",
+                          {"traceback": traceback.format_exception_only(type(exc), exc)[-1].strip(),
+                           "frames": [f"{os.path.basename(f.filename)}:{f.lineno}:{f.name}" for f in tb][-12:],
+                           "note": "re-run this check with the same VERIF_SEED to reproduce"},
+                          {"site": "unexpected-exception", "exception": type(exc).__name__})
+            return common.finish(ctx)
         print(f"[{prop}] infrastructure failure", file=sys.stderr)
         return 2
 
